@@ -58,6 +58,49 @@ def multi_file(rep, rng, tier):
                           % (what, [w[:2] for w in want], [g[:2] for g in got]), {"schema": schema, "query_files": files, "together": got, "file_by_file": want})
 
 
+def printed_names(rep, rng, tier):
+    """'file is the query file containing the offending statement': through cmd.Generate (printFileErr prints names relative to
+    the configuration directory) with the query files inside, next to and outside the configuration directory."""
+    schema = "CREATE TABLE t (id int PRIMARY KEY, name text);\n"
+    good = "-- name: Ok%d :many\nSELECT id FROM t;\n"
+    bad = "-- name: Bad%d :one\nSELECT nosuch FROM t WHERE id = $1;\n"
+    layouts = [(".", "queries"), ("db", "q"), ("db", "../db-queries"), ("db", "../dbq"), ("db", "../other/db"), ("a/b", "../../a/b-sql"), ("conf", "../conf.d/sql"), ("x", "../x_y")]
+    jobs, meta = [], []
+    for cd, qrel in layouts:
+        for two in (False, True):
+            qdir = os.path.normpath(os.path.join(cd, qrel))
+            files = {os.path.join(cd, "sqlc.json"): json.dumps({"version": "1", "packages": [{"path": "out", "engine": "postgresql", "schema": "schema.sql", "queries": qrel}]}),
+                     os.path.join(cd, "schema.sql"): schema,
+                     os.path.join(qdir, "authors.sql"): good % 1 + "\n" + bad % 1}
+            if two:
+                files[os.path.join(qdir, "books.sql")] = "\n" + bad % 2 + good % 2
+            jobs.append({"op": "generate", "files": {k.lstrip("./"): v for k, v in files.items()}, "config_dir": "" if cd == "." else cd, "nofiles": True})
+            meta.append((cd, qrel, qdir, sorted(f for f in files if f.endswith(".sql") and "schema" not in f)))
+    for (cd, qrel, qdir, qfiles), r in zip(meta, run_harness(jobs)):
+        rep.case(("printed-names", cd, qrel, len(qfiles)), nontrivial=True)
+        rep.count("printed-names:%s" % ("inside" if not qrel.startswith("..") else "outside"))
+        replay = {"config_dir": cd, "queries": qrel, "query_files": qfiles, "stderr": r.get("stderr")}
+        if r.get("ok") or "panic" in r:
+            rep.violation("a package with offending statements generates (or panics) when the query files are at %s relative to the configuration" % qrel, replay)
+            continue
+        names = [m.group(1) for m in re.finditer(r"(?m)^([^#\n][^\n:]*):\d+:\d+: ", r.get("stderr") or "")]
+        # the transcription of printFileErr (Model/Driver.v print_name, theorems C17_printed_name_*) on the same files: the tree
+        # is rooted at /r here, the harness strips its own root from stderr
+        if len(names) == len(qfiles):
+            root_cd = "/r" if cd == "." else "/r/" + cd
+            ex = ["[if String.eqb (trim_prefix (print_name %s %s) \"/r/\") %s then 1%%N else 0%%N]" % (coqstr(root_cd), coqstr("/r/" + f.lstrip("./")), coqstr(n_))
+                  for f, n_ in zip(qfiles, names)]
+            if any(v != [1] for v in coq_eval("From Verif Require Import Base.Str Model.Driver.\nOpen Scope string_scope. Open Scope list_scope.\n", ex, tag="c17names")):
+                rep.violation("correspondence corr:C17:print_name broken: the names printFileErr prints differ from Model/Driver.v print_name (%s)" % names, replay, no_input=True)
+        want = []
+        for f in qfiles:
+            f = f.lstrip("./")
+            rel_cfg = os.path.relpath(f, cd)
+            want.append({f, rel_cfg} if not rel_cfg.startswith("..") else {f})       # relative to the config dir when inside it, else the path itself
+        if len(names) != len(want) or any(n not in w for n, w in zip(names, want)):
+            rep.violation("the diagnostics name %s; the offending statements are in %s" % (names, [sorted(w) for w in want]), replay)
+
+
 def run(tier, seed):
     rep = Report(PROP, tier, seed)
     ok, info = prep(PROP)
@@ -90,6 +133,7 @@ def run(tier, seed):
         elif diff == 2 and wf:
             rep.violation("correspondence corr:C17:line_number broken: reported positions differ from the model's", replay, no_input=True)
     multi_file(rep, rng, tier)
+    printed_names(rep, rng, tier)
     if getattr(rep, "proof_broken", None) and not rep.violations:
         rep.violation("proof obligation no longer checks: " + rep.proof_broken, {"theorem_file": "coq/theories/Props/C17.v", "detail": info}, no_input=True)
     return rep.finish("proof", ob, dis, checker_cmd(PROP),
